@@ -17,7 +17,8 @@ patch, demo0 = f"{src}/patch{k}.diff", f"{src}/demo{k}.py"
 wt = f"/tmp/wt/eval_{P}_{k}"
 # some demonstrations assert that canopen is imported from their author's worktree: retarget
 demo = f"{MUT}/{P}/demo{k}_eval.py"
-open(demo, "w").write(open(demo0).read().replace(f"/tmp/wt/{P}/", wt + "/").replace(f"/tmp/wt/{P}", wt).replace(f"/tmp/wt2/{P}", wt).replace(f"/tmp/wt3/{P}", wt).replace(f"/tmp/wt4/{P}", wt).replace(f"/tmp/wt5/{P}", wt).replace(f"/tmp/wt6/{P}", wt))
+import re
+open(demo, "w").write(re.sub(rf"/tmp/wt\d*/{P}/?", lambda m: wt + ("/" if m.group(0).endswith("/") else ""), open(demo0).read()))
 sh = lambda c, **kw: subprocess.run(c, shell=True, text=True, stdout=subprocess.PIPE, stderr=subprocess.STDOUT, **kw)  # noqa
 sh(f"git -C /repo worktree remove --force {wt}")
 assert sh(f"git -C /repo worktree add -q {wt} HEAD").returncode == 0
